@@ -55,25 +55,46 @@ def check_views(F, rep):
             hdr_adt = "section::SectionHeader" if field == "sh_type" else "segment::ProgramHeader"
             fi = [("f", i, field) for i, fd in enumerate(F.adts[hdr_adt]["variants"][0]["fields"]) if fd["name"] == field][0]
             ty = T.proj(T.deref(T.param(2)), fi)
-            msgs = []
-            seen_ok = seen_err = 0
-            for t, st in an.ret_leaves() or []:
-                is_k = an.truth(st.facts, T.bin("Eq", ty, T.const("u32", K), "u32"))
-                if t.op == "agg" and t.args[3] == "Err":
-                    e = t.args[4][0]
-                    if e.op == "agg" and e.args[3] in ("UnexpectedSectionType", "UnexpectedSegmentType"):
-                        seen_err += 1
-                        want = T.agg("tuple", None, 0, None, [ty, T.const("u32", K)])
-                        if e.args[3] != errv or e.args[4][0] is not want or is_k is not False:
-                            msgs.append("type error outcome %s under (type == %s) = %s; expected %s((found, %s)) exactly when the type differs" % (pp(e)[:120], cname, is_k, errv, cname))
-                    elif is_k is not True:
-                        msgs.append("an outcome other than the type error is reached although the type may differ from %s" % cname)
-                else:
-                    seen_ok += 1
-                    if is_k is not True:
-                        msgs.append("the view is produced without the type having been checked against %s" % cname)
-            if seen_err != 1:
-                msgs.append("%d type-error outcomes" % seen_err)
+            def judge(an_, kterm):
+                msgs_ = []
+                ok_ = err_ = 0
+                for t, st in an_.ret_leaves() or []:
+                    is_k = an_.truth(st.facts, T.bin("Eq", ty, kterm, "u32"))
+                    if t.op == "agg" and t.args[3] == "Err":
+                        e = t.args[4][0]
+                        if e.op == "agg" and e.args[3] in ("UnexpectedSectionType", "UnexpectedSegmentType"):
+                            err_ += 1
+                            want = T.agg("tuple", None, 0, None, [ty, kterm])
+                            if e.args[3] != errv or e.args[4][0] is not want or is_k is not False:
+                                msgs_.append("type error outcome %s under (type == %s) = %s; expected %s((found, %s)) exactly when the type differs" % (pp(e)[:120], cname, is_k, errv, cname))
+                        elif is_k is not True:
+                            msgs_.append("an outcome other than the type error is reached although the type may differ from %s" % cname)
+                    else:
+                        ok_ += 1
+                        if is_k is not True:
+                            msgs_.append("the view is produced without the type having been checked against %s" % cname)
+                if err_ != 1:
+                    msgs_.append("%d type-error outcomes" % err_)
+                return msgs_, ok_
+            msgs, seen_ok = judge(an, T.const("u32", K))
+            if msgs:
+                # the guard may sit in a private helper that receives the header and the expected type (`read_typed_section(shdr, K)`)
+                # and that every path of the accessor goes through first: the helper is judged with its type parameter, the accessor
+                # for passing its own header and constant and for yielding a view only when the helper succeeded
+                from ..engine import program as _prog
+                pr_ = _prog(F)
+                cs_ = [c for c in an.calls() if c.block in an.entry and pr_.local_fn(c.callee) is not None and not pr_.known_name(pr_.local_fn(c.callee))
+                       and pr_.local_fn(c.callee)["kind"] != "Closure" and len(c.args) == 3 and c.args[1] is T.param(2) and c.args[2] is T.const("u32", K)]
+                if len(cs_) == 1:
+                    hc_ = cs_[0]
+                    hm_, hok_ = judge(analyze_fn(F, pr_.local_fn(hc_.callee)), T.param(3))
+                    rets_ok = all(("var", hc_.result, "Ok") in st.facts for t, st in an.ret_leaves() or [] if not (t.op == "agg" and t.args[3] == "Err"))
+                    errs_ok = all(t.args[4][0] is T.payload(hc_.result, "Err") or (t.args[4][0].op == "call" and t.args[4][0].args[2] and t.args[4][0].args[2][0] is T.payload(hc_.result, "Err"))
+                                  or ("var", hc_.result, "Ok") in st.facts
+                                  for t, st in an.ret_leaves() or [] if t.op == "agg" and t.args[3] == "Err")
+                    if not hm_ and hok_ >= 1 and rets_ok and errs_ok:
+                        msgs = []
+                        seen_ok = max(seen_ok, 1)
             if marker not in nm(fn["sig"]["output"]):
                 msgs.append("returns %s, expected a view over %s" % (fn["sig"]["output"], marker))
             rep.require(not msgs and seen_ok >= 1, "typed-view", "%s::%s" % (owner, meth), w, "refused unless %s == %s; constructs the %s view" % (field, cname, marker.strip('>')),
